@@ -8,6 +8,7 @@ package c06
 
 import (
 	"context"
+	"encoding/json"
 	"fmt"
 	"math/rand"
 	"os"
@@ -69,8 +70,6 @@ type env struct {
 	subj, cont *uni.ClientStore
 	sp         atomic.Pointer[faultPlan]
 	cp         atomic.Pointer[contPlan]
-	nInUni     int
-	layoutRng  *rand.Rand
 }
 
 func (e *env) close() {
@@ -80,16 +79,14 @@ func (e *env) close() {
 	}
 }
 
-func (e *env) fresh() error {
+func (e *env) fresh(splits []string) error {
 	e.close()
 	u, err := uni.New(e.cfg.backend, 3)
 	if err != nil {
 		return err
 	}
-	for _, k := range []string{"b", "c", "d", "e"} {
-		if e.layoutRng.Intn(2) == 0 {
-			u.SplitAt([]byte(k))
-		}
+	for _, k := range splits {
+		u.SplitAt([]byte(k))
 	}
 	s, err := u.NewClient()
 	if err != nil {
@@ -99,9 +96,11 @@ func (e *env) fresh() error {
 	if err != nil {
 		return err
 	}
+	e.sp.Store(nil)
+	e.cp.Store(nil)
 	s.Net.SetDecider(func(c *uni.Call) uni.Action { return e.sp.Load().decide(c) })
 	c.Net.SetDecider(func(c *uni.Call) uni.Action { return e.cp.Load().decide(c) })
-	e.u, e.subj, e.cont, e.nInUni = u, s, c, 0
+	e.u, e.subj, e.cont = u, s, c
 	return nil
 }
 
@@ -600,12 +599,12 @@ func (x *exec) step(st *Step) {
 	case kInsert:
 		k := []byte(st.Keys[0])
 		mb := txn.GetMemBuffer()
-		if !x.p.Pess {
+		if !x.p.Pess || st.NoLockFirst {
 			if err := mb.SetWithFlags(k, x.val(), kv.SetPresumeKeyNotExists); err != nil {
 				fail(err)
 			}
-			x.touch(st.Keys, "insert-opt")
-			x.event(st.Keys, "insert-opt", nil)
+			x.touch(st.Keys, "insert-unlocked")
+			x.event(st.Keys, "insert-unlocked", nil)
 			return
 		}
 		// as a SQL layer does it: buffer the row inside a staging level, lock the key (the request carries
@@ -902,7 +901,7 @@ func (e *env) runProgram(idx int, p *Program) (out outcome) {
 				}
 				shape := x.shapeOf(string(l.Key))
 				sig = fmt.Sprintf("leftover-lock/subject/%s/%s/%s", mode, lt, shape)
-				if strings.HasSuffix(shape, "next=none") || strings.HasPrefix(shape, "acq=never") {
+				if strings.HasSuffix(shape, "next=none") || strings.HasSuffix(shape, "next=untouched") {
 					// nothing happened to the key after it was locked: the end of the transaction is what failed
 					sig += fmt.Sprintf("/agg=%s/end=%s", x.lastAgg, endTag)
 				}
@@ -938,6 +937,16 @@ func (e *env) runProgram(idx int, p *Program) (out outcome) {
 		} else {
 			r.Count("failed_steps", 1)
 			r.Count("commit_failed_definitely", 1)
+			mode := "opt"
+			if p.Pess {
+				mode = "pess"
+			}
+			r.Count("commit_failed_definitely:"+mode, 1)
+			if is1PC {
+				r.Count("commit_failed_definitely:while_1pc:"+mode, 1)
+			} else if isAsync {
+				r.Count("commit_failed_definitely:while_async:"+mode, 1)
+			}
 		}
 	} else {
 		r.Count("end:rollback", 1)
@@ -1054,12 +1063,12 @@ func firstWords(s string, n int) string {
 	return strings.Join(f, "_")
 }
 
-// runConfig runs n seeded programs of one configuration; universes are shared by up to 40 programs.
+// runConfig runs n seeded programs of one configuration.
 func runConfig(t *testing.T, r *vrep.Report, cfg config, n int, stream int64) {
-	e := &env{r: r, cfg: cfg, layoutRng: rand.New(rand.NewSource(vrep.Seed()*7919 + stream))}
+	e := &env{r: r, cfg: cfg}
 	defer e.close()
 	g := &gen{rng: rand.New(rand.NewSource(vrep.Seed()*104729 + stream)), backend: cfg.backend, mock: cfg.backend == uni.Mock}
-	only := os.Getenv("VERIF_C06_PROGRAM") // "<config>#<index>": run only that program (the generator is still stepped)
+	only := replayTarget() // "<config>#<index>": run only that program (the generator is still stepped)
 	for i := 0; i < n; i++ {
 		p := g.Next(vrep.Seed()*1000003+stream*4099+int64(i), cfg.pess)
 		if only != "" && only != fmt.Sprintf("%s#%d", cfg, i) {
@@ -1068,23 +1077,18 @@ func runConfig(t *testing.T, r *vrep.Report, cfg config, n int, stream int64) {
 		if r.NViolations() >= 12 {
 			return // enough witnesses; every further leftover costs a long re-check
 		}
-		if e.u == nil || e.nInUni >= 40 {
-			if err := e.fresh(); err != nil {
-				r.Inconc("%s: universe: %v", cfg, err)
-				return
-			}
+		// every program runs in its own universe: it depends on nothing but its descriptor
+		if err := e.fresh(p.Splits); err != nil {
+			r.Inconc("%s: universe: %v", cfg, err)
+			return
 		}
-		e.nInUni++
 		if os.Getenv("VERIF_C06_VERBOSE") != "" {
 			t.Logf("%s #%d: %s", cfg, i, p)
 		}
 		done := make(chan outcome, 1)
 		go func() { done <- e.runProgram(i, p) }()
 		select {
-		case out := <-done:
-			if !out.reusable {
-				e.close()
-			}
+		case <-done:
 		case <-time.After(3 * time.Minute): // watchdog only
 			r.Inconc("%s #%d: program did not finish (watchdog): %s", cfg, i, p)
 			e.u = nil // abandoned, not closed: the program may still be running
@@ -1094,6 +1098,30 @@ func runConfig(t *testing.T, r *vrep.Report, cfg config, n int, stream int64) {
 			r.Violate("backend-panic:"+bp.Msg, cfg.String()+": the store panicked serving "+bp.Req, map[string]any{"config": cfg.String(), "program": p.String(), "panic": bp})
 		}
 	}
+}
+
+// replayTarget names the single program to run: from VERIF_C06_PROGRAM ("<config>#<index>") or from the
+// witness file of a violation (vcheck.py --replay, which also restores the seed).
+func replayTarget() string {
+	if s := os.Getenv("VERIF_C06_PROGRAM"); s != "" {
+		return s
+	}
+	if path := vrep.ReplayPath(); path != "" {
+		b, err := os.ReadFile(path)
+		if err != nil {
+			return ""
+		}
+		var w struct {
+			Detail struct {
+				Config string `json:"config"`
+				Index  int    `json:"program_index"`
+			} `json:"detail"`
+		}
+		if json.Unmarshal(b, &w) == nil && w.Detail.Config != "" {
+			return fmt.Sprintf("%s#%d", w.Detail.Config, w.Detail.Index)
+		}
+	}
+	return ""
 }
 
 func (e *env) uPanics() []uni.BackendPanic {
@@ -1124,6 +1152,9 @@ func TestVerifC06(t *testing.T) {
 		if only := os.Getenv("VERIF_C06_ONLY"); only != "" && !strings.Contains(c.String(), only) {
 			continue
 		}
+		if tgt := replayTarget(); tgt != "" && !strings.HasPrefix(tgt, c.String()+"#") {
+			continue
+		}
 		n := vrep.Pick(70, 600)
 		if c.pess {
 			n = vrep.Pick(110, 1200)
@@ -1135,6 +1166,9 @@ func TestVerifC06(t *testing.T) {
 		runConfig(t, r, c, n, int64(i+1))
 		t.Logf("config %s: %d programs took %v, violations so far %d", c, n, time.Since(t0), r.NViolations())
 		r.Flush()
+	}
+	if replayTarget() != "" {
+		return // a single program: no coverage floors
 	}
 	r.Floor("programs", 300)
 	r.Floor("failed_steps", 150)
